@@ -1,0 +1,11 @@
+//go:build verif
+
+package ssh
+
+import "golang.org/x/crypto/ssh/internal/bcrypt_pbkdf"
+
+// VerifBcryptPbkdfKey re-exports ssh/internal/bcrypt_pbkdf.Key (an internal
+// package) for the verification harness in /verif.
+func VerifBcryptPbkdfKey(password, salt []byte, rounds, keyLen int) ([]byte, error) {
+	return bcrypt_pbkdf.Key(password, salt, rounds, keyLen)
+}
